@@ -8,7 +8,7 @@
    may overwrite between two library calls; every later output (table dumps,
    notifications, DHCP replies, decline/release frames, purge probes) reads
    retained fields through [deref store]. *)
-From PV Require Import Base.Prelude Base.Text Model.Alias Proofs.Alias Model.AliasHunt Proofs.AliasHunt Model.AliasOut Proofs.AliasOut.
+From PV Require Import Base.Prelude Base.Text Model.Alias Proofs.Alias Model.AliasHunt Proofs.AliasHunt Model.AliasOut Proofs.AliasOut Model.AliasWhole Proofs.AliasWhole.
 
 (* Invariant over every history (frames of every handled kind arriving in any
    buffers, any scribbles in between, any library calls): no retained field is
@@ -81,12 +81,12 @@ Theorem C10_hunt6_noninterference : forall scr p,
 Proof. exact hunt_noninterference_copy. Qed.
 Print Assumptions C10_hunt6_noninterference.
 
-(* the defect of the unrepaired code, kept as a theorem about the model with the copy removed:
+(* sharpness (not a statement about /repo: the defect is repaired): in the model with the copy removed,
    hunt the sender of a frame, reuse the buffer: StopHunt misses the entry *)
-Theorem C10_hunt6_without_copy_refuted :
+Theorem C10_hunt6_copy_is_necessary :
   exists scr p, running false (hshared scr 0 p) <> running false (hfresh 0 p).
 Proof. exact hunt_refuted_ref. Qed.
-Print Assumptions C10_hunt6_without_copy_refuted.
+Print Assumptions C10_hunt6_copy_is_necessary.
 
 (* histories without a StartHunt on a frame view were never affected, copy or not *)
 Theorem C10_hunt6_no_start_unaffected : forall cp scr p,
@@ -110,10 +110,10 @@ Proof. exact hunt4_noninterference_copy. Qed.
 Print Assumptions C10_hunt4_noninterference.
 
 (* the unrepaired code: once the buffer is reused the loop no longer finds its own key and gives up *)
-Theorem C10_hunt4_without_copy_refuted :
+Theorem C10_hunt4_copy_is_necessary :
   exists scr p, h4transcript false [192;168;0;11] (h4shared scr 0 p) <> h4transcript false [192;168;0;11] (h4fresh 0 p).
 Proof. exact hunt4_refuted_ref. Qed.
-Print Assumptions C10_hunt4_without_copy_refuted.
+Print Assumptions C10_hunt4_copy_is_necessary.
 
 Example C10_hunt4_example :
   h4transcript true [192;168;0;11] (h4shared ex_hunt_scr 0 ex_hunt4_hist) = [[item_announce [2;0;0;0;0;1]]; [item_announce [2;0;0;0;0;1]]].
@@ -140,16 +140,31 @@ Proof. exact outputs_example. Qed.
 Print Assumptions C10_outputs_example.
 
 (* the code as found: a notification's MAC was the table's slice *)
-Theorem C10_outputs_as_found_refuted : exists ops hp, crun out_copies_as_found ops hp <> hp.
+Theorem C10_output_copy_is_necessary : exists ops hp, crun out_copies_as_found ops hp <> hp.
 Proof. exact outputs_refuted. Qed.
-Print Assumptions C10_outputs_as_found_refuted.
+Print Assumptions C10_output_copy_is_necessary.
 
-(* even then, a caller that obtained values only through the copying output points could not change the storage *)
-Theorem C10_outputs_as_found_partial : forall ops hp,
-  uses_only out_copies_as_found ops = true -> crun out_copies_as_found ops hp = hp.
-Proof. exact (outputs_partial out_copies_as_found). Qed.
-Print Assumptions C10_outputs_as_found_partial.
+(* for ANY table of output points: a caller that obtains values only through copying points cannot change the
+   storage (the repaired code is the instance where every point copies) *)
+Theorem C10_outputs_safe_through_copying_points : forall oc ops hp,
+  uses_only oc ops = true -> crun oc ops hp = hp.
+Proof. exact outputs_partial. Qed.
+Print Assumptions C10_outputs_safe_through_copying_points.
 
-Example C10_outputs_partial_nonvacuous : uses_only out_copies_as_found [CGet OP_dns_entry 0; CWrite 0 [1;2;3]] = true.
+Example C10_outputs_copying_points_nonvacuous : uses_only out_copies_as_found [CGet OP_dns_entry 0; CWrite 0 [1;2;3]] = true.
 Proof. exact outputs_partial_nonvacuous. Qed.
-Print Assumptions C10_outputs_partial_nonvacuous.
+Print Assumptions C10_outputs_copying_points_nonvacuous.
+
+(* ---------------------------------------------------------------- *)
+(* ONE invariant over the operation list of the WHOLE library model (Model/AliasWhole.v: session and handler
+   tables, both hunt lists and the ARP spoof loops over one store): after every history nothing reachable from
+   retained state has provenance "view of a caller's buffer". *)
+Theorem C10_no_view_reachable : forall c h, no_view (wrun c h) = true.
+Proof. exact no_view_reachable. Qed.
+Print Assumptions C10_no_view_reachable.
+
+Example C10_no_view_example :
+  let w := wrun std_cfg ex_whole in
+  List.length (st_hosts (w_state (ww_main w))) = 3%nat /\ List.length (h4_loops (ww_h4 w)) = 1%nat /\ ww_h6 w = [] /\ no_view w = true.
+Proof. exact ex_whole_runs. Qed.
+Print Assumptions C10_no_view_example.
